@@ -32,6 +32,14 @@ type idxSiteRes struct {
 	upper  bool
 	fact   string
 	banned bool // a call to the function holding the site was not stepped into
+	it, lt *Term // the index and the table length as terms (of the last path that met the access)
+}
+
+// idxErrPath: the facts at one error return of the explored root.
+type idxErrPath struct {
+	env Env
+	pos string
+	met map[*ssa.IndexAddr]bool // accesses passed on this path (the guard let the index through)
 }
 
 // pxIndexProof decides one access on the current path.
@@ -179,6 +187,9 @@ func (w *World) pxIndexRun(root *ssa.Function, sites map[*ssa.IndexAddr]bool, fo
 					res[x] = sr
 				}
 				sr.met++
+				st.visits[fmt.Sprintf("idxsite:%p", x)]++
+				sr.it = px.term(x.Index, fr, st)
+				sr.lt = px.lenTerm(px.term(x.X, fr, st), types.Typ[types.Int])
 				lo, up, fact := w.pxIndexProof(px, x, fr, st)
 				if !lo || !up {
 					sr.bad++
@@ -213,7 +224,20 @@ func (w *World) pxIndexRun(root *ssa.Function, sites map[*ssa.IndexAddr]bool, fo
 			return !isReader
 		},
 		havoc: func(fr *pxFrame, lp *loopInfo) bool { return true },
+		onReturn: func(fr *pxFrame, ret *ssa.Return, results []*Term, st *pxState) {
+			if idx := errIndex(root.Signature); idx >= 0 && len(w.idxErrPaths) < 4096 && w.nonNilErr(ret.Results[idx], nil, nil, 0) {
+				met := map[*ssa.IndexAddr]bool{}
+				for s := range sites {
+					if st.visits[fmt.Sprintf("idxsite:%p", s)] > 0 {
+						met[s] = true
+					}
+				}
+				w.idxErrPaths = append(w.idxErrPaths, idxErrPath{env: st.env.clone(), pos: w.instrPos(ret), met: met})
+			}
+		},
 	})
+	w.idxErrPaths = nil
+	w.idxPX = px
 	if os.Getenv("HLINT_PXTRACE") == fnName(root) {
 		px.hooks.onBlock = func(fr *pxFrame, b *ssa.BasicBlock, st *pxState) {
 			fmt.Fprintf(os.Stderr, "PX %s%s block %d (%s)\n", fr.id, fnName(fr.fn), b.Index, b.Comment)
@@ -382,4 +406,112 @@ func (w *World) helperScopes(names []string) map[*ssa.Function]map[string]bool {
 		walk(root)
 	}
 	return out
+}
+
+// ruleIndexGuardsTightPX — C03.R7: a table-index guard refuses only invalid
+// indices.  For every table access of the decoder, the function holding it is
+// explored as for C14.R1 (helpers stepped into); at every return of a non-nil
+// error on a path that has constrained the index (a comparison refined it),
+// either the index is negative there or the path knows index >= len(table).
+// `index <= 0` for `index < 0` — in the reader, or in a range helper it calls —
+// leaves a path to the error return on which the index may be 0 with nothing
+// known about the length: the first type name / class definition / object of
+// the stream can no longer be referred to.
+func (w *World) ruleIndexGuardsTightPX(r *Report, rule string) {
+	n := 0
+	for _, fn := range w.SrcFuncs() {
+		recv := fn.Signature.Recv()
+		if recv == nil || !namedIs(recv.Type(), hessianPath, "Decoder") {
+			continue
+		}
+		sites := map[*ssa.IndexAddr]bool{}
+		var order []*ssa.IndexAddr
+		for _, b := range fn.Blocks {
+			for _, in := range b.Instrs {
+				ia, ok := in.(*ssa.IndexAddr)
+				if !ok {
+					continue
+				}
+				owner, _, ok := w.fieldOfLoad(ia.X)
+				if !ok || owner != "Decoder" {
+					continue
+				}
+				if _, isSl := ia.X.Type().Underlying().(*types.Slice); !isSl {
+					continue
+				}
+				sites[ia] = true
+				order = append(order, ia)
+			}
+		}
+		if len(order) == 0 || errIndex(fn.Signature) < 0 {
+			continue
+		}
+		res, complete := w.pxIndexRun(fn, sites, nil)
+		paths, px := w.idxErrPaths, w.idxPX
+		for i, ia := range order {
+			sr := res[ia]
+			if sr == nil || sr.it == nil {
+				continue
+			}
+			if _, isC := ia.Index.(*ssa.Const); isC {
+				continue
+			}
+			label := fmt.Sprintf("%s · index #%d", fnName(fn), i+1)
+			if !complete {
+				r.undecided(rule, label, w.instrPos(ia), "path exploration truncated")
+				continue
+			}
+			n++
+			seen, bad, where := 0, 0, ""
+			for _, ep := range paths {
+				constrained := false
+				if ep.met[ia] {
+					continue
+				}
+				for k := range ep.env {
+					if strings.Contains(k, sr.it.key) || (sr.it.K == TConv && sr.it.A != nil && strings.Contains(k, sr.it.A.key)) {
+						constrained = true
+						break
+					}
+				}
+				if !constrained {
+					continue
+				}
+				seen++
+				I, _ := px.f.Eval(sr.it, ep.env)
+				if I != nil && (I.Empty() || I.Max().Sign() < 0) {
+					continue
+				}
+				is1 := func(k string, v int64) bool {
+					s, has := ep.env[k]
+					return has && s.Equal(single(v))
+				}
+				a, b := sr.it.key, sr.lt.key
+				if is1("("+a+" >= "+b+")", 1) || is1("("+a+" < "+b+")", 0) || is1("("+b+" <= "+a+")", 1) || is1("("+b+" > "+a+")", 0) {
+					continue
+				}
+				// the unsigned spelling decides both sides at once
+				uns := false
+				for _, ut := range []string{"uint", "uint64", "uint32", "uintptr"} {
+					ua, ub := "conv:"+ut+"("+a+")", "conv:"+ut+"("+b+")"
+					if is1("("+ua+" >= "+ub+")", 1) || is1("("+ua+" < "+ub+")", 0) || is1("("+ub+" <= "+ua+")", 1) || is1("("+ub+" > "+ua+")", 0) {
+						uns = true
+					}
+				}
+				if uns {
+					continue
+				}
+				bad++
+				if where == "" {
+					where = fmt.Sprintf("the error return at %s is reached with index %s ∈ %s and nothing known about %s", ep.pos, a, I, b)
+				}
+			}
+			if bad > 0 {
+				r.add(rule, label, w.instrPos(ia), false, where+": a non-negative index that may be in range is refused — index 0 is the first entry of the table")
+			} else {
+				r.add(rule, label, w.instrPos(ia), true, fmt.Sprintf("on the %d error paths that constrain the index it is negative or known to be >= the table length", seen))
+			}
+		}
+	}
+	r.floor(rule+" (decoder table accesses with a computed index)", n, 3)
 }
